@@ -1,4 +1,8 @@
+"""C15: the core state machine (add / rm / lookups through the command path) and, for watchers that come and go through
+reloadconfig, harness/props/c15_reload.py."""
 from harness.corecheck import make
-MODULE = make("C15", ["CircusProofs/Props/C15.lean"],
+from harness.props import c15_reload
+PARTS = [make("C15", ["CircusProofs/Props/C15.lean"],
               ["CircusProofs/Core/Pres.lean", "CircusProofs/Core/Generic.lean", "CircusProofs/Core/SlotFree.lean",
-               "CircusProofs/Core/DirInv.lean", "CircusProofs/Core/Init.lean"])
+               "CircusProofs/Core/DirInv.lean", "CircusProofs/Core/Init.lean"]),
+         c15_reload]
